@@ -117,5 +117,25 @@ func run(c hx.Config) error {
 			}
 		}
 	}
+	// objects that can reject unknown keys AND have absent-able fields: drop k fields, add j unknown keys
+	nPolicy := 60
+	if c.Thorough() {
+		nPolicy = 600
+	}
+	for i := range nPolicy {
+		s := cx.GenPolicyObject(r, i%3)
+		for range 2 {
+			v, ok := s.Valid(r).(map[string]any)
+			if !ok {
+				continue
+			}
+			delete(v, "u")
+			emit(s, v, "policy-valid")
+			for _, in := range s.PolicyInputs(r, v) {
+				emit(s, in, "policy-drop-add")
+				emit(s, &in, "policy-drop-add-ptr")
+			}
+		}
+	}
 	return o.Close(map[string]any{"cfg": cfg.Tok()})
 }
